@@ -155,8 +155,18 @@ class _Idx:
         return 3.0
 
 
+class _Shape:
+    """a user class and a subclass of it: two different exact classes outside the ladders (their mixture is object, in either order)"""
+    def __repr__(self):
+        return type(self).__name__ + "()"
+
+
+class _Circle(_Shape):
+    pass
+
+
 EXOTIC = [_dec.Decimal("1.5"), _fr.Fraction(1, 3), _Num(), _Idx(), _dt.time(1, 2), _dt.timedelta(days=1), bytearray(b"a"),
-          frozenset({1}), range(3)]
+          frozenset({1}), range(3), _Shape(), _Circle(), LookupError("x"), KeyError("x")]
 
 
 def _exo_codes(spec):
